@@ -126,13 +126,21 @@ def v6_text(v, style, rng):
     if style == 'UPPER':
         return a.compressed.upper()
     if style == 'v4tail':
-        hi = ipaddress.IPv6Address(v & ~0xffffffff).compressed
+        groups = ['%x' % (v >> sh & 0xffff) for sh in range(112, 16, -16)]
         tail = str(ipaddress.IPv4Address(v & 0xffffffff))
-        if hi.endswith('::'):
-            return hi + tail
-        if hi.endswith(':0:0'):
-            return hi[:-3] + tail
-        return a.compressed
+        # compress the first longest run of zero groups among the six, if any
+        best, cur = (0, 0), None
+        for i, g in enumerate(groups + ['x']):
+            if g == '0':
+                cur = i if cur is None else cur
+            else:
+                if cur is not None and i - cur > best[1]:
+                    best = (cur, i - cur)
+                cur = None
+        if best[1] >= 1 and rng.random() < 0.8:
+            left, right = groups[:best[0]], groups[best[0] + best[1]:]
+            return ':'.join(left) + '::' + ':'.join(right + [tail])
+        return ':'.join(groups + [tail])
     # 'nolead': groups without leading zeros, no '::' compression
     return ':'.join('%x' % (v >> s & 0xffff) for s in range(112, -1, -16))
 
@@ -681,6 +689,16 @@ def oracle_eui_error(p, m):
         ipaddress.ip_network(p, strict=False)
     except ValueError:
         ok_prefix = False
+    if not ok_prefix and '/' in p:
+        # netaddr reads the prefix length with int(): ' 64', '64 ', '+64' are accepted (finding N5 of C11's
+        # validators, same mechanism); that leniency is not counted against this property
+        head, _, tail = p.partition('/')
+        try:
+            if not tail.isdigit() and 0 <= int(tail) <= 128:
+                ipaddress.IPv6Address(head)
+                ok_prefix = True
+        except ValueError:
+            pass
     if not ok_prefix and p not in ('2001:db8::/ffff:ffff:ffff:ffff::',):
         return 'malformed prefix %r accepted: %s' % (p, a)
     if m in (None, '', 'zz') or isinstance(m, (bytes, float)):
